@@ -1,7 +1,16 @@
 """C19 check configuration (data only)."""
+import importlib.util
+import os
+
 from propbase import KERNEL, HARNESS
 
+_root = os.path.dirname(os.path.dirname(os.path.abspath(__file__)))
+_spec = importlib.util.spec_from_file_location("translate_c18keys_for_c19", os.path.join(_root, "translate", "c18keys.py"))
+_keys = importlib.util.module_from_spec(_spec)
+_spec.loader.exec_module(_keys)
+
 PROP = {'gen': ['base64'],
+ 'pre_coq': [_keys.pre_coq],   # Keys/KeyParse.v (chord parser) takes its vocabulary from Gen/C18Keys.v
  'coq_props': ['theories/Props/C19.vo'],
  'coq_corr': ['theories/Corr/C19Corr.vo'],
  'props_file': 'theories/Props/C19.v',
